@@ -12,7 +12,12 @@ pub struct C13;
 
 #[derive(Clone, Debug, Serialize, Deserialize)]
 pub enum Case {
-    Op { op: SOp },
+    Op {
+        op: SOp,
+        /// iterator protocol script: b < 200 => next(), otherwise nth((b - 200) % 6)
+        #[serde(default)]
+        proto: Vec<u8>,
+    },
     Text { case: TextCase, radius: usize },
 }
 
@@ -48,7 +53,7 @@ fn expect_changes(op: &DiffOp) -> Vec<(ChangeTag, Option<usize>, Option<usize>, 
     v
 }
 
-fn check_op(sop: &SOp, obs: &mut Obs) -> Verdict {
+fn check_op(sop: &SOp, proto: &[u8], obs: &mut Obs) -> Verdict {
     let op = sop.to_op();
     let (tag, o, n) = op.as_tag_tuple();
     // injectively valued sequences: any old/new or index mix-up changes a value
@@ -74,6 +79,56 @@ fn check_op(sop: &SOp, obs: &mut Obs) -> Verdict {
     let want = expect_changes(&op);
     if got != want {
         return Verdict::Fail(format!("{:?}.iter_changes = {:?}, expected {:?}", op, got, want));
+    }
+    // the iterator protocol: any mix of next()/nth() walks the same expansion; size_hint brackets
+    // the remaining length; count/last/step_by agree
+    let proto_result = guard(|| -> Result<(), String> {
+        let mut it = op.iter_changes(&old[..], &new[..]);
+        let mut cur = 0usize;
+        for b in proto {
+            let remaining = want.len().saturating_sub(cur);
+            let (lo, hi) = it.size_hint();
+            if lo > remaining || hi.map_or(false, |h| h < remaining) {
+                return Err(format!("size_hint {:?} does not bracket the {} remaining changes", (lo, hi), remaining));
+            }
+            let (got, exp) = if *b < 200 {
+                let g = it.next();
+                let e = want.get(cur);
+                cur += 1;
+                (g, e)
+            } else {
+                let k = ((*b - 200) % 6) as usize;
+                let g = it.nth(k);
+                let e = want.get(cur + k);
+                cur += k + 1;
+                (g, e)
+            };
+            let got = got.map(|c: Change<u32>| (c.tag(), c.old_index(), c.new_index(), c.value()));
+            if got.as_ref() != exp {
+                return Err(format!("after protocol prefix {:?}: got {:?}, expected {:?}", proto, got, exp));
+            }
+            if exp.is_none() {
+                break;
+            }
+        }
+        if op.iter_changes(&old[..], &new[..]).count() != want.len() {
+            return Err("count() disagrees with the expansion".into());
+        }
+        let last = op.iter_changes(&old[..], &new[..]).last().map(|c: Change<u32>| (c.tag(), c.old_index(), c.new_index(), c.value()));
+        if last.as_ref() != want.last() {
+            return Err(format!("last() = {:?}, expected {:?}", last, want.last()));
+        }
+        let stepped: Vec<_> = op.iter_changes(&old[..], &new[..]).step_by(2).map(|c: Change<u32>| (c.tag(), c.old_index(), c.new_index(), c.value())).collect();
+        let want_stepped: Vec<_> = want.iter().step_by(2).cloned().collect();
+        if stepped != want_stepped {
+            return Err(format!("step_by(2) = {:?}, expected {:?}", stepped, want_stepped));
+        }
+        Ok(())
+    });
+    match proto_result {
+        Ok(Ok(())) => {}
+        Ok(Err(m)) => return Verdict::Fail(format!("{:?}.iter_changes: {}", op, m)),
+        Err(p) => return Verdict::Fail(format!("{:?}.iter_changes protocol: {}", op, p)),
     }
     // slice-wise expansion
     let slices: Vec<(ChangeTag, Vec<u32>)> = match guard(|| op.iter_slices(&old[..], &new[..]).map(|(t, s): (ChangeTag, &[u32])| (t, s.to_vec())).collect()) {
@@ -160,6 +215,21 @@ fn judge_text<'a, T: DiffableStr + ?Sized + std::fmt::Debug + 'a>(d: &'a TextDif
             return Err(format!("UnifiedDiffHunk::iter_changes {:?} != concatenation over hunk.ops() {:?}", got, want));
         }
     }
+    // hunks built by hand from arbitrary op lists (only the changes; reversed order)
+    let only_changes: Vec<similar::DiffOp> = d.ops().iter().filter(|o| !matches!(o, DiffOp::Equal { .. })).cloned().collect();
+    let mut reversed: Vec<similar::DiffOp> = d.ops().to_vec();
+    reversed.reverse();
+    for ops in [only_changes, reversed] {
+        let h = similar::udiff::UnifiedDiffHunk::new(ops.clone(), d, true);
+        let got = flat(h.iter_changes());
+        let mut want: Flat<T> = vec![];
+        for op in &ops {
+            want.extend(flat(op.iter_changes(d.old_slices(), d.new_slices())));
+        }
+        if got != want {
+            return Err(format!("UnifiedDiffHunk::new({:?}).iter_changes() {:?} != concatenation of per-op expansions {:?}", ops, got, want));
+        }
+    }
     obs.nontrivial = d.ops().len() >= 2;
     obs.class_if(hunks >= 1, "text: hunks iterated");
     Ok(())
@@ -202,7 +272,7 @@ fn sop() -> impl Strategy<Value = SOp> {
 
 fn strat(_tier: Tier) -> BoxedStrategy<Case> {
     prop_oneof![
-        5 => sop().prop_map(|op| Case::Op { op }),
+        5 => (sop(), proptest::collection::vec(prop_oneof![3 => 0u8..200, 1 => 200u8..=255], 0..=10)).prop_map(|(op, proto)| Case::Op { op, proto }),
         1 => (prop_oneof![4 => text_case_mix(120), 4 => line_case(30, true), 1 => big_line_case(130)], 0usize..4).prop_map(|(case, radius)| Case::Text { case, radius }),
     ]
     .boxed()
@@ -217,7 +287,7 @@ fn enum_ops(_tier: Tier, f: &mut dyn FnMut(Case) -> bool) {
                         if m > 0 && !matches!(op, SOp::Replace(..)) {
                             continue;
                         }
-                        if !f(Case::Op { op }) {
+                        if !f(Case::Op { op, proto: vec![0, 201, 0, 203, 0] }) {
                             return;
                         }
                     }
@@ -231,7 +301,7 @@ impl Prop for C13 {
     type Case = Case;
     const ID: &'static str = "C13";
     fn rule() -> String {
-        "cases = Op(one op of any of the four kinds with arbitrary offsets/lengths, expanded against injectively valued sequences old[i]=i, new[j]=10^6+j so that any old/new or index mix-up changes a value) | Text(text diff, radius: whole-diff iteration and hunk iteration); enumeration of all ops with offsets and lengths in 0..4. Oracle: exact expected (tag, old_index, new_index, value) vector per kind; iter_slices items == item-wise expansion with 1 (Replace: 2) slices; iter_all_changes / UnifiedDiffHunk::iter_changes == concatenation of per-op expansions and every value is the token at its index; apply_to_hook(Capture) reproduces the op; as_tag_tuple ranges. Non-trivial = old_index != new_index and (Replace) old_len != new_len, or a text diff with >= 2 ops; distinct = distinct serialized case.".into()
+        "cases = Op(one op of any of the four kinds with arbitrary offsets/lengths, expanded against injectively valued sequences old[i]=i, new[j]=10^6+j so that any old/new or index mix-up changes a value) | Text(text diff, radius: whole-diff iteration and hunk iteration); enumeration of all ops with offsets and lengths in 0..4. Oracle: exact expected (tag, old_index, new_index, value) vector per kind; iter_slices items == item-wise expansion with 1 (Replace: 2) slices; a generated iterator-protocol script (mix of next()/nth(k)) walks the same expansion, size_hint brackets the remainder, count/last/step_by agree; iter_all_changes / UnifiedDiffHunk::iter_changes (hunks from iter_hunks and hunks built by hand from the changes only and from the reversed op list) == concatenation of per-op expansions and every value is the token at its index; apply_to_hook(Capture) reproduces the op; as_tag_tuple ranges. Non-trivial = old_index != new_index and (Replace) old_len != new_len, or a text diff with >= 2 ops; distinct = distinct serialized case.".into()
     }
     fn assumptions() -> Vec<String> {
         vec!["sequences are long enough for the op (in-bounds by construction)".into()]
@@ -247,7 +317,7 @@ impl Prop for C13 {
     }
     fn check(case: &Case, obs: &mut Obs) -> Verdict {
         match case {
-            Case::Op { op } => check_op(op, obs),
+            Case::Op { op, proto } => check_op(op, proto, obs),
             Case::Text { case, radius } => check_text(case, *radius, obs),
         }
     }
